@@ -33,6 +33,9 @@ var (
 	PathAttrs = []string{"camliPath:x", "camliPath:y"}
 )
 
+// Zones: the same instant may be written with different UTC offsets in a dateCreated value.
+var Zones = []*time.Location{time.UTC, time.UTC, time.FixedZone("", 2*3600), time.FixedZone("", 5*3600+1800), time.FixedZone("", -8*3600)}
+
 // DanglingRef is a well-formed ref of a blob that is in no generated world.
 var DanglingRef = blob.RefFromString("vsearchworld: a blob nobody uploaded").String()
 
@@ -384,7 +387,7 @@ func GenClaims(t *rapid.T, w *World, p *Perm, max int) {
 					continue
 				}
 				kind, attr = "set-attribute", "dateCreated"
-				val = rapid.SampledFrom(DatePool).Draw(t, "dateCreated").Format(time.RFC3339Nano)
+				val = rapid.SampledFrom(DatePool).Draw(t, "dateCreated").In(rapid.SampledFrom(Zones).Draw(t, "zone")).Format(time.RFC3339Nano)
 			case 11: // visibility
 				kind, attr, val = "set-attribute", "camliDefVis", rapid.SampledFrom([]string{"hide", "show"}).Draw(t, "defVis")
 			case 12: // delete a whole attribute that currently has values
